@@ -150,25 +150,30 @@ CONS_MUT = {
  "comment": [dict(name="comment-pops-twice", file="parse.c", find="    if (c == '\\n') {\n        p->statecount--;", replace="    if (c == '\\n') {\n        p->statecount -= 2;", expect="C11")],
  "escape1": [dict(name="escape-u-counts-8", file="parse.c", find="state->counter = c == 'u' ? 4 : 6;", replace="state->counter = c == 'u' ? 4 : 8;", expect="C11")],
  "escapeh": [dict(name="hex-digit-unchecked", file="parse.c", find='    if (digit < 0) {\n        p->error = "invalid hex digit in hex escape";\n        return 1;\n    }\n', replace="", expect="C11")],
- "escapeu": [dict(name="codepoint-unchecked", file="parse.c", find="        if (state->argn > 0x10FFFF) {", replace="        if (0) {", expect="C11|overflow|wf")],
- "stringchar": [dict(name="stringend-keeps-bufcount", file="parse.c", find="    p->bufcount = 0;\n    popstate(p, ret);\n    return 1;\n}\n\nstatic int stringchar", replace="    popstate(p, ret);\n    return 1;\n}\n\nstatic int stringchar", expect="C11")],
+ "escapeu": [dict(name="unicode-digit-unchecked", file="parse.c", find='    if (digit < 0) {\n        p->error = "invalid hex digit in unicode escape";\n        return 1;\n    }\n', replace="", expect="C11")],
+ "stringchar": [dict(name="backslash-enters-hex-state", file="parse.c", find="    if (c == '\\\\') {\n        state->consumer = escape1;", replace="    if (c == '\\\\') {\n        state->consumer = escapeh;", expect="C11")],
  "longstring": [dict(name="end-candidate-off-by-one", file="parse.c", find="        if (c == '`' && state->counter < state->argn) {", replace="        if (c == '`' && state->counter <= state->argn) {", expect="C11")],
  "atsign": [dict(name="atsign-no-pop", file="parse.c", find="    (void) state;\n    p->statecount--;\n    switch (c) {", replace="    (void) state;\n    switch (c) {", expect="C11")],
  "tokenchar": [dict(name="token-keeps-buffer", file="parse.c", find="    p->bufcount = 0;\n    popstate(p, ret);\n    return 0;", replace="    popstate(p, ret);\n    return 0;", expect="C11")],
  "root": [dict(name="close-at-root-unchecked", file="parse.c", find="            if (p->statecount == 1) {\n                delim_error(p, 0, c,", replace="            if (p->statecount == 0) {\n                delim_error(p, 0, c,", expect="C11|pointer|bounds"),
           dict(name="close-tuple-leaves-arg", file="parse.c", find="    for (int32_t i = state->argn - 1; i >= 0; i--)\n        ret[i] = p->args[--p->argcount];", replace="    for (int32_t i = state->argn - 1; i > 0; i--)\n        ret[i] = p->args[--p->argcount];", expect="C11")],
 }
-for cname in CONSUMERS:
-    unit("parse.consumer." + cname, "the Consumer `%s` preserves wf_parser (stack counts <= capacities, statecount >= 1, root container at index 0, only root-dispatched states below "
+CONS_UNITS = [(c, c, {}) for c in CONSUMERS if c != "root"] + [("root_open", "root", {}), ("root_close", "root", {"defines": ["-DARGMAX=2", "-DBUFMAX=2"]})]
+CONS_MUT["root_open"] = [dict(name="unexpected-char-accepted", file="parse.c", find='                p->error = "unexpected character";\n                return 1;\n', replace="", expect="C11")]
+CONS_MUT["root_close"] = CONS_MUT["root"]
+for hname, cname, extra in CONS_UNITS:
+    if cname in ("stringchar", "longstring"):
+        extra = dict(extra, replace_calls=CONS_STUBS + ["stringend:stringend_stub"])
+    unit("parse.consumer." + hname, "the Consumer `%s` preserves wf_parser (stack counts <= capacities, statecount >= 1, root container at index 0, only root-dispatched states below "
          "the top, sum of container argn == argcount, local counter ranges), is memory safe, and writes none of line/column/lookback/flag - for every byte and every well-formed state" % cname,
-         "h_consumer_" + cname, ["parse_consumers.c"], mode="plain", cls="bounded",
+         "h_consumer_" + hname, ["parse_consumers_fixedcap.c" if hname in ("longstring", "root_open", "root_close", "tokenchar", "escapeu", "stringchar", "atsign") else "parse_consumers.c"], mode="plain", cls="bounded",
          bound="nesting <= 3 (at most 4 parser states), token buffer capacity <= 5, args capacity <= 4, backtick runs <= 3; all loops fully unwound (unwinding assertions on)",
-         nanbox=False, link=["wrap.c"], replace_calls=CONS_STUBS, unwind=8, timeout=300,
+         nanbox=False, link=["wrap.c"], unwind=8, timeout=300, **({} if cname in ("stringchar", "longstring") else {"replace_calls": CONS_STUBS}),
          functions=[cname, "pushstate", "popstate", "push_buf", "push_arg", "_pushstate"],
          assumes=["allocation entry points (janet_tuple_begin/_n, janet_array, janet_buffer) return fresh valid objects of the requested size; janet_string/janet_symbol/number scanners "
                   "only read the range they are given (asserted at the call); realloc is modelled as a typed copy into a fresh object and does not fail",
                   "wf_parser of the input state as listed in harness/parse_consumers.c (W1-W4)"],
-         mutants=CONS_MUT[cname])
+         **dict(dict(mutants=CONS_MUT[hname]), **extra))
 
 json.dump({"units": units}, open(os.path.join(V, "units", "C11.json"), "w"), indent=1)
 print("wrote %d units" % len(units))
